@@ -699,6 +699,7 @@ func RunAs(prop string) func(*gen.Ctx) error {
 			}
 		}
 		if prop == "C07" {
+			concurrentFresh(c, gen.NewRand(c.Seed+31), meta)
 			nh := apqFreshOracle(meta)
 			meta.Notes = append(meta.Notes, fmt.Sprintf("%d request histories (every history up to length 3 over text / text+own hash / text+another text's hash / hash only x two texts) against a server with the APQ extension: a request that carries its text must be answered as by a fresh server", nh))
 			k := 300
